@@ -265,6 +265,7 @@ def run_hist(h, wsdir, deadline):
     root = os.path.realpath(root)
     disk = {d: list(h.disk[d]) for d in DOCS}
     changed = {}                       # d -> text triple the client changed it to (unsaved)
+    vers = {}                          # d -> version number of the client's copy
     srv = lsp.Server(root, stderr_path=os.path.join(wsdir, "lr.stderr"))
     srv.wait_log(READY, deadline)
     obs = []
@@ -283,7 +284,9 @@ def run_hist(h, wsdir, deadline):
                 obs.append({})
             elif k == "change":
                 changed[d] = op["text"]
-                params = lsp.did_change(u, text_of(d, *op["text"]), i + 2)
+                # client-side document versions: they restart after a close (a re-opened document starts at 1 again)
+                vers[d] = vers.get(d, 0) + 1
+                params = lsp.did_change(u, text_of(d, *op["text"]), vers[d])
                 params["contentChanges"] = [{"text": text_of(d, *t)} for t in op.get("pre", [])] + params["contentChanges"]
                 srv.notify("textDocument/didChange", params)
                 obs.append({})
@@ -296,6 +299,7 @@ def run_hist(h, wsdir, deadline):
                 obs.append({})
             elif k == "close":
                 changed.pop(d, None)
+                vers.pop(d, None)
                 srv.notify("textDocument/didClose", lsp.did_close(u))
                 obs.append({})
             else:
